@@ -19,6 +19,10 @@ Node shapes (tuples, lexical order of bodies = print order):
 """
 from __future__ import annotations
 
+import decimal
+import enum
+import fractions
+import functools
 import json
 import re
 import urllib.parse
@@ -90,8 +94,116 @@ def _besc(v):
     return table_escape(v).encode("utf-8")
 
 
+def _tagesc(v):
+    """A custom escaping function that transforms *every* input (wraps it), returning bytes."""
+    return b"(:" + table_escape(v).encode("utf-8") + b":)"
+
+
 def marker(k):
     return "<M%d>&\"'p" % k
+
+
+# Values whose *type* is (a subclass of) a builtin that needs no escaping by itself but whose str() is markup:
+# the value an expression tag shows is str(value), whatever the type (C20 "whatever its type or content").
+
+class MInt(int):
+    def __str__(self):
+        return marker(int(self))
+
+
+class MFloat(float):
+    def __str__(self):
+        return marker(int(self))
+
+
+class MComplex(complex):
+    def __str__(self):
+        return marker(int(self.real))
+
+
+class MFraction(fractions.Fraction):
+    def __str__(self):
+        return marker(int(self))
+
+
+class MDecimal(decimal.Decimal):
+    def __str__(self):
+        return marker(int(self))
+
+
+class MList(list):
+    def __str__(self):
+        return marker(self[0])
+
+
+class MTuple(tuple):
+    def __str__(self):
+        return marker(self[0])
+
+
+class MDict(dict):
+    def __str__(self):
+        return marker(self["k"])
+
+
+class MStr(str):
+    """A str subclass whose content is the marker (no __str__ override: the content is the value)."""
+
+
+class MBytes(bytes):
+    pass
+
+
+@functools.lru_cache(maxsize=None)
+def _menum(k):
+    class MEnum(int, enum.Enum):
+        A = k
+
+        def __str__(self):
+            return marker(self.value)
+    return MEnum.A
+
+
+@functools.lru_cache(maxsize=None)
+def _mflag(k):
+    class MFlag(enum.IntFlag):
+        A = k
+
+        def __str__(self):
+            return marker(self.value)
+    return MFlag.A
+
+
+NUM_BASE = 97530000          # plain numeric markers: 9753kkkk never occurs in generated text
+
+
+def num_marker(k):
+    return NUM_BASE + k
+
+
+# marker constructors offered to the C20 generator: name -> (callable, value class used in mechanism keys)
+MARKER_FNS = {
+    "mk": (marker, "str"),
+    "mkb": (lambda k: marker(k).encode("utf-8"), "bytes"),
+    "mko": (lambda k: Obj(marker(k)), "object"),
+    "mki": (MInt, "int-subclass"),
+    "mkf": (lambda k: MFloat(k), "float-subclass"),
+    "mkc": (lambda k: MComplex(k, 1), "complex-subclass"),
+    "mkq": (lambda k: MFraction(k), "fraction-subclass"),
+    "mkd": (lambda k: MDecimal(k), "decimal-subclass"),
+    "mke": (_menum, "int-enum"),
+    "mkg": (_mflag, "int-flag"),
+    "mkl": (lambda k: MList([k]), "list-subclass"),
+    "mkt": (lambda k: MTuple((k,)), "tuple-subclass"),
+    "mkm": (lambda k: MDict(k=k), "dict-subclass"),
+    "mks": (lambda k: MStr(marker(k)), "str-subclass"),
+    "mky": (lambda k: MBytes(marker(k).encode("utf-8")), "bytes-subclass"),
+    "mkx": (lambda k: ValueError(marker(k)), "exception"),
+    # plain numbers: their text needs no HTML escaping, but a custom escaping function still has to see them
+    "mkn": (num_marker, "int"),
+    "mkr": (lambda k: num_marker(k) + 0.5, "float"),
+}
+NUMERIC_MARKERS = ("mkn", "mkr")
 
 
 def user_namespace():
@@ -100,8 +212,8 @@ def user_namespace():
         "s": "<b>&\"'x", "t": "plain", "u": "é中\U0001f600", "b": b"by<tes>\xc3\xa9", "n": 3, "z": 0, "f": 2.5,
         "items": ["a", "<i>", 3], "empty": [], "d": {"k": "v&", "j": 2}, "none": None, "obj": Obj("<o&>"),
         "T": True, "F": False, "up": _up, "boom": _boom, "kerr": _kerr, "wrap": _wrap, "rev": _rev, "ident": _ident,
-        "blen": _blen, "myesc": _myesc, "besc": _besc, "_tt_modules": Mods(),
-        "mk": marker, "mkb": lambda k: marker(k).encode("utf-8"), "mko": lambda k: Obj(marker(k)),
+        "blen": _blen, "myesc": _myesc, "besc": _besc, "tagesc": _tagesc, "_tt_modules": Mods(),
+        **{name: fn for name, (fn, _cls) in MARKER_FNS.items()},
     }
 
 
@@ -298,6 +410,8 @@ class Printer:
         self.toks = []
         self.nlines = 0          # newlines emitted so far
         self.bad_line = None
+        self.multiline = {"comment": 0, "tag": 0, "expr": 0, "text": 0}    # constructs spanning lines emitted so far
+        self.multiline_before_bad = None
 
     def emit(self, s):
         self.out.append(s)
@@ -316,8 +430,13 @@ class Printer:
         return self.rng.choice(["\n", " \n ", "\n\t"])
 
     def tag(self, contents):
-        self.emit("{%" + self.sp() + contents + self.sp() + "%}")
+        self.construct("tag", "{%" + self.sp() + contents + self.sp() + "%}")
         self.toks.append(("tag", contents))
+
+    def construct(self, kind, s):
+        if "\n" in s:
+            self.multiline[kind] += 1
+        self.emit(s)
 
     def op(self, name, arg=""):
         if arg:
@@ -325,7 +444,7 @@ class Printer:
         return name
 
     def text(self, s):
-        self.emit(s)
+        self.construct("text", s)
         if self.toks and self.toks[-1][0] == "text":
             self.toks[-1] = ("text", self.toks[-1][1] + s)
         else:
@@ -349,7 +468,7 @@ class Printer:
                 a = " "
             if src.endswith("}") and not b:
                 b = " "
-            self.emit("{{" + a + src + b + "}}")
+            self.construct("expr", "{{" + a + src + b + "}}")
             self.toks.append(("expr", src))
         elif k in ("raw", "module"):
             self.tag(self.op(k, nd[1]))
@@ -407,7 +526,7 @@ class Printer:
             a = self.sp()
             if body.startswith("!") and not a:
                 a = " "
-            self.emit("{#" + a + body + self.sp() + "#}")
+            self.construct("comment", "{#" + a + body + self.sp() + "#}")
             self.toks.append(("comment", body.strip()))
         elif k == "tcomment":
             self.tag(self.op("comment", nd[1]))
@@ -421,6 +540,7 @@ class Printer:
         elif k == "bad":
             _, kind, text, token = nd
             self.bad_line = self.nlines + 1
+            self.multiline_before_bad = dict(self.multiline)
             self.emit(text)
             if isinstance(token, list):
                 self.toks.extend(token)
@@ -441,6 +561,16 @@ def print_file(nodes, rng, newlines_in_tags=True):
         pass
     src = "".join(p.out)
     return src, p.toks, p.bad_line, p.nlines + 1
+
+
+def print_file_ex(nodes, rng, newlines_in_tags=True):
+    """print_file plus {construct kind: how many of them spanned lines before the ("bad", ...) node} (or None)."""
+    p = Printer(rng, newlines_in_tags)
+    try:
+        p.nodes(nodes)
+    except StopPrint:
+        pass
+    return "".join(p.out), p.toks, p.bad_line, p.nlines + 1, p.multiline_before_bad
 
 
 # ------------------------------------------------------------------------------------------
@@ -723,6 +853,9 @@ WORDS = ["hello", "Hello World", "<b>", "</b>", "<p class=\"x\">", "it's", "\\",
 WS = [" ", "  ", "\n", "\n\n", "\t", " \n ", "\t \t", "\n  ", "   \n\n  "]
 EXOTIC_WS = ["\r\n", "\r", "\x0b", "\x0c", "\xa0", "\u2028", "\x1f", "\x85"]
 MODES = ["all", "single", "oneline"]
+DIRS = ["", "sub/", "a/", "a/b/"]
+MARKER_POOL = sorted(set(MARKER_FNS) - set(NUMERIC_MARKERS))
+AUTOESCAPES = [None, "xhtml_escape", "myesc", "besc", "escape", "tagesc"]
 
 
 class Gen:
@@ -736,6 +869,7 @@ class Gen:
         self.marker = 0
         self.budget = 0
         self.files = {}
+        self.reserved = set()              # names handed out by new_file_name
         self.block_file = {}
         self.block_scope = {}              # block name -> (scope, in_loop) at its first introduction
         self.loader = False
@@ -768,7 +902,14 @@ class Gen:
         rng = self.rng
         if self.mode == "c20":
             self.marker += 1
-            return "%s(%d)" % (rng.choice(["mk", "mk", "mkb", "mko"]), self.marker)
+            r = rng.random()
+            if r < 0.5:
+                fn = rng.choice(["mk", "mk", "mkb", "mko"])
+            elif r < 0.62:
+                fn = rng.choice(NUMERIC_MARKERS)
+            else:
+                fn = rng.choice(MARKER_POOL)
+            return "%s(%d)" % (fn, self.marker)
         if scope and rng.random() < 0.3:
             v = rng.choice(scope)
             return rng.choice([v, "str(%s) + '!'" % v, "[%s]" % v])
@@ -851,7 +992,7 @@ class Gen:
                 return [("text", " ")]
             self.auto_used.add(file)
             F.add("autoescape")
-            return [("autoescape", rng.choice([None, "xhtml_escape", "myesc", "besc", "escape"]))]
+            return [("autoescape", rng.choice(AUTOESCAPES))]
         if r < 70 and in_loop:
             F.add("break")
             return [(rng.choice(["break", "continue"]),)]
@@ -912,12 +1053,13 @@ class Gen:
         parts = []
         for _ in range(rng.randint(0, 4)):
             parts.append(rng.choice(WORDS + WS + ["{{ x }}", "{% end %}", "{% if", "{#", "!", "{{!", "%", "#", "}"]))
+        if rng.random() < 0.25:
+            # deliberately multi-line: the lines after it must still be numbered correctly
+            parts.insert(rng.randint(0, len(parts)), rng.choice(["\n", "\n\n", " line one\n line two\n", "\n\t\n \n"]))
         s = "".join(parts)
         s = s.replace(closer, closer[0] + " " + closer[1])
         if s.endswith(closer[0]):
             s += "."
-        if self.plain_lines:
-            s = s.replace("\n", " ")
         return s
 
     def try_node(self, scope, in_loop, d, file):
@@ -961,9 +1103,21 @@ class Gen:
         return "../" * (pdir.count("/") + 1) + target
 
     def new_file_name(self, stem):
+        """A fresh file name; about a third of the time (when possible) the *same relative name* as an existing file
+        in another directory, so that relative include/extends references are ambiguous without their parent."""
         rng = self.rng
         self.fresh += 1
-        return "%s%s%d%s" % (rng.choice(["", "", "sub/", "a/b/"]), stem, self.fresh, rng.choice([".html", ".txt", ".js", ".html"]))
+        name = None
+        if self.files and rng.random() < 0.35:
+            base = rng.choice(sorted(self.files)).rsplit("/", 1)[-1]
+            free = [d for d in DIRS if d + base not in self.files and d + base not in self.reserved]
+            if free:
+                self.features.add("namesake-files")
+                name = rng.choice(free) + base
+        if name is None:
+            name = "%s%s%d%s" % (rng.choice(["", "", "sub/", "a/b/", "a/"]), stem, self.fresh, rng.choice([".html", ".txt", ".js", ".html"]))
+        self.reserved.add(name)
+        return name
 
     def include_node(self, scope, file):
         rng = self.rng
@@ -1024,8 +1178,8 @@ class Gen:
         cfg = {"loader": rng.random() < (0.85 if self.mode == "c20" else 0.6)}
         self.loader = cfg["loader"]
         if self.loader:
-            cfg["loader_autoescape"] = (rng.choice([UNSET, None, None, "xhtml_escape", "myesc"]) if self.mode == "c20"
-                                        else rng.choice([UNSET, UNSET, None, "xhtml_escape", "myesc", "besc"]))
+            cfg["loader_autoescape"] = (rng.choice([UNSET, None, None, "xhtml_escape", "myesc", "tagesc"]) if self.mode == "c20"
+                                        else rng.choice([UNSET, UNSET, None, "xhtml_escape", "myesc", "besc", "tagesc"]))
             cfg["loader_ws"] = rng.choice([None, None, "all", "single", "oneline"])
             cfg["loader_ns"] = rng.random() < 0.3
             cfg["via"] = rng.choice(["load", "load", "ctor"])
@@ -1045,7 +1199,7 @@ class Gen:
             elif r < 0.4:
                 cfg["ctor_cw"] = rng.random() < 0.5
             if rng.random() < 0.3:
-                cfg["ctor_autoescape"] = rng.choice([None, "xhtml_escape", "myesc"])
+                cfg["ctor_autoescape"] = rng.choice([None, "xhtml_escape", "myesc", "tagesc"])
             cfg["as_bytes"] = rng.random() < 0.3
         self.files[self.main] = None
         chain = 0
@@ -1075,6 +1229,15 @@ class Gen:
                 self.files[nm] = self.child_file(nm, prev, known)
                 prev = nm
         files = {k: merge_text(v) for k, v in self.files.items()}
+        if self.loader:
+            # operation history on the one loader instance: other entry points of the same template tree are loaded
+            # (and rendered) before the main template; the main one is eligible when it is itself loaded by name
+            cfg["fs_loader"] = rng.random() < 0.25
+            entries = sorted(k for k in files if k != self.main or cfg["via"] == "load")
+            if entries and rng.random() < 0.5:
+                rng.shuffle(entries)
+                cfg["history"] = entries[:rng.randint(1, min(4, len(entries)))]
+                self.features.add("loader-history")
         return {"files": files, "main": self.main, "cfg": cfg, "features": sorted(self.features)}
 
 
